@@ -12,7 +12,7 @@
    place in osmjson). *)
 From Coq Require Import ZArith List String Ascii Bool Permutation.
 From Verif Require Import C05.Json C05.Schema C05.Model C05.Fmt C05.Osm C05.Spec C05.SortTags
-     C05.Fields C05.ProofsGeneric C05.ProofsOsm C05.ProofsShape C05.ProofsLegacy C05.Codec C05.CodecGeneric.
+     C05.Fields C05.ProofsGeneric C05.Resolve C05.ProofsOsm C05.ProofsDoc C05.ProofsShape C05.ProofsLegacy C05.Codec C05.CodecGeneric.
 From VerifGen Require Import GenJsonTags.
 Import ListNotations.
 Open Scope string_scope.
@@ -55,13 +55,59 @@ Print Assumptions C05_tag_order_irrelevant.
 
 (* 2. version_number_or_string + absent_stays_empty: for EVERY document object that decodes
       (any keys, any order, unknown keys present), the header fields are exactly what the
-      document says; absent (or null) fields are the empty string, never placeholder text *)
+      document says; absent (or null) fields are the empty string, never placeholder text.
+      The specification side (Spec.version_spec, string_field_spec) reads the document with its
+      own case-insensitive key comparison (a 26-entry table), not with the model's resolution;
+      documents that repeat a header key are outside it (no claim).  The text of a numeric
+      version is Spec.number_text = Fmt.fmt_g, a model of fmt's %v tied by correspondence and
+      examples only (labelled: not an independent specification of number formatting). *)
 Theorem C05_header_of_document : forall kv o, osm_unmarshal (JObj kv) = Ok o ->
-  version_says kv (o_version o)
-  /\ str_field kv "generator" (o_generator o) /\ str_field kv "copyright" (o_copyright o)
-  /\ str_field kv "attribution" (o_attribution o) /\ str_field kv "license" (o_license o).
+  version_spec kv (o_version o)
+  /\ string_field_spec kv "generator" (o_generator o) /\ string_field_spec kv "copyright" (o_copyright o)
+  /\ string_field_spec kv "attribution" (o_attribution o) /\ string_field_spec kv "license" (o_license o).
 Proof. exact header_of_document. Qed.
 Print Assumptions C05_header_of_document.
+
+(* 2b. document_elements: an independently written document — the keys of the document object
+      and of every element object in ANY ORDER, UNKNOWN KEYS added at both levels (keys that do
+      not resolve, exactly or by case, to a field), version/generator/... as the value has them
+      — decodes successfully to the elements that were written, up to tag order and way-node
+      annotations.  [written_as mo e' e]: e' is such a respelling of the library's encoding e of
+      a well-formed element; [doc_entries mo o es']: the header entries of o with es' as the
+      elements array.  (Elements keep their order; nested objects — tags, members, bounds — are
+      as the library writes them.) *)
+Theorem C05_document_elements : forall mo, (forall l, Permutation (mo l) l) ->
+  forall o es' dkv', wf_osm o = true ->
+  Forall2 (written_as mo) es' (objects mo o) ->
+  respelled hdr_names dkv' (doc_entries mo o es') ->
+  exists o', osm_unmarshal (JObj dkv') = Ok o' /\ osm_equiv o' o.
+Proof. exact document_elements. Qed.
+Print Assumptions C05_document_elements.
+
+(* decoding a struct is independent of key order and of unknown keys (any struct type) *)
+Theorem C05_key_order_and_unknown_keys : forall fs kv' kv,
+  respelled (names fs) kv' kv -> self_resolving (names fs) kv -> NoDup (keys kv) ->
+  dec (TStruct fs) (JObj kv') = dec (TStruct fs) (JObj kv).
+Proof. exact dec_respelled. Qed.
+Print Assumptions C05_key_order_and_unknown_keys.
+
+(* the model's key resolution agrees with the specification's case-insensitive comparison *)
+Theorem C05_resolution_is_case_insensitive_match : forall ns n kv,
+  NoDup (map fold_case ns) -> In n ns -> entries_f ns n kv = field_values n kv.
+Proof. exact entries_f_spec. Qed.
+
+(* 2c. domain boundary (audit C05-3): osm.Tags is a slice and can hold two tags with one key;
+      osmjson tags are a JSON object and cannot, nor can an OSM element.  Such values are
+      outside the domain ([wf] demands distinct keys for that reason, not because of Go maps);
+      the full statement "every Tags value round-trips up to order" is false: *)
+Theorem C05_roundtrip_with_duplicate_tag_keys_refuted :
+  exists v, wf TTags v = false /\
+    exists v', dec TTags (enc std TTags v) = Ok v' /\ canon TTags v' <> canon TTags v.
+Proof.
+  exists dup_tags. destruct duplicate_tag_keys_collapse as [H1 [_ [H3 H4]]].
+  split; [exact H1|]. eexists. split; [exact H3|exact H4].
+Qed.
+Print Assumptions C05_roundtrip_with_duplicate_tag_keys_refuted.
 
 (* 3. json_shape: the output is osmjson — an "elements" array (never null) of objects each
       carrying its type from the osmjson vocabulary, tags a JSON object of strings, way nodes an
@@ -93,7 +139,18 @@ Proof.
 Qed.
 Print Assumptions C05_special_encodings.
 
-(* 4. codec_independent: whichever lawful codec writes and whichever reads (laws: every codec
+(* 4. codec_independent.  WHAT IS ESTABLISHED: every hand-written (un)marshal helper calls the
+      configured codec and nothing else in the package depends on it (GenOk.Codec_entry_points +
+      the codec-threaded model below); therefore results can depend on the installed codec only
+      through what that codec itself does.  The laws ([lawful]) idealise a codec as one that
+      builds the same tree as encoding/json's struct walk, writes text that every codec reads
+      back as that tree, and permutes map entries — i.e. tree-identical to encoding/json.  A
+      codec that changes VALUES is not lawful and does change results: the configuration the
+      package's own documentation advertises (json-iterator with MarshalFloatWith6Digits) rounds
+      coordinates to 6 decimals and violates law 1 for 7-decimal OSM coordinates.  No third-party
+      codec could be run in this sandbox; the custom codecs exercised are wrappers of
+      encoding/json (counting; reformatting with UseNumber).
+      Statement: whichever lawful codec writes and whichever reads (laws: every codec
       reads every codec's output as the same tree; map order is a permutation), the results
       are equivalent to the input and to each other.  Codecs are Section variables of
       C05/Codec.v, no axiom. *)
@@ -198,3 +255,17 @@ Example ex_case_folding :
     /\ nth_error (match w with VStruct l => l | _ => [] end) 12
        = Some (VSome (VStruct [VFloat 1 0; VFloat 3 0; VFloat 2 0; VFloat 4 0])).
 Proof. eexists. eexists. split; [vm_compute; reflexivity|]. repeat split; reflexivity. Qed.
+
+(* a document in the sense of C05_document_elements: keys shuffled, unknown keys at both levels *)
+Example ex_document :
+  exists o, osm_unmarshal
+    (JObj [("osm3s", JObj [("copyright", JStr "x")]);
+           ("elements", JArr [JObj [("lon", JNum 25 1); ("center", JNull); ("id", JNum 7 0);
+                                    ("tags", JObj [("b", JStr "2"); ("a", JStr "1")]);
+                                    ("type", JStr "node"); ("lat", JNum 15 1)]]);
+           ("generator", JStr "gen")]) = Ok o
+    /\ o_generator o = "gen" /\ o_version o = ""
+    /\ map (canon t_Node) (o_nodes o)
+       = [canon t_Node (VStruct [VUnit; VInt 7; VFloat 15 1; VFloat 25 1; VStr ""; VInt 0; VBool false; VInt 0;
+                                 VInt 0; VTime zero_time; VList [mk_tag ("a", "1"); mk_tag ("b", "2")]; VNone])].
+Proof. eexists. split; [vm_compute; reflexivity|]. repeat split; vm_compute; reflexivity. Qed.
